@@ -70,7 +70,17 @@ class StmtMixin:
                 if len(rs) != 1 or sk:
                     raise Unsupported("cut at a statement whose condition forks or raises", s)
                 cenv["cond"] = V(T.BOOL, self.truthy(rs[0][1], s))
-            for i, sp in enumerate(cut["prove"]):
+            if cut.get("assume"):
+                # a definitional assumption in the middle of a function: the listed spec symbols must not have been
+                # constrained on this path so far (then any satisfiable constraint on them is a conservative extension;
+                # satisfiability is the contract author's obligation and is stated next to the cut)
+                names = set(cut.get("define", ()))
+                if not names:
+                    raise SpecError("a cut with `assume` must list the symbols it defines")
+                self.check_symbols_unconstrained(names, st, s)
+                for sp in cut["assume"]:
+                    st = st.assume(self.spec(sp, st, env=cenv, old=st.old))
+            for i, sp in enumerate(cut.get("prove", ())):
                 # proved with the listed opaque functions replaced by their definitions (quantifier free) ...
                 g_open = self.spec(sp, st.set_meta("reveal", tuple(cut.get("reveal", ()))), env=cenv, old=st.old)
                 # only quantifier-free hypotheses are kept (sound: fewer hypotheses), so the query stays in QF_S
